@@ -61,7 +61,7 @@ fn extra_member() -> BoxedStrategy<ExtraMember> {
 }
 
 fn skel_strategy(_: &Ctx) -> BoxedStrategy<SkelCase> {
-    let bone = (prop_oneof![3 => ident(), 1 => Just("j_kosi".to_string()), 1 => gen::from_alphabet("n_hara_abcdefghijklmnopqrstuvwxyz", 100, 130)], any::<u16>(), vec(any::<u32>(), 12));
+    let bone = (prop_oneof![6 => ident(), 2 => Just("j_kosi".to_string()), 1 => Just(String::new()), 2 => gen::from_alphabet("n_hara_abcdefghijklmnopqrstuvwxyz", 100, 130)], any::<u16>(), vec(any::<u32>(), 12));
     (
         (0u8..3, 0u8..40, vec(bone, 1..=40), any::<bool>(), any::<bool>(), 0u8..4),
         (vec((0u8..5, any::<u8>(), extra_member()), 0..8), vec((ident(), vec(extra_member(), 0..5)), 0..4), any::<bool>(), 0u8..3, 0u8..3, any::<u8>(), ident(), any::<[u32; 4]>()),
@@ -188,6 +188,7 @@ fn build_type(name: &str, parent: usize, required: Vec<MemberDef>, c: &SkelCase,
 pub fn build_skeleton_file(c: &SkelCase) -> Vec<u8> {
     let md = |name: &str, ty: u32, class: Option<&str>| MemberDef { name: name.to_string(), ty, tuple_size: 0, class: class.map(|s| s.to_string()) };
     let mut w = TagWriter::new(c.backrefs, c.pad_ints);
+    w.explicit_empty = c.ids[0] % 2 == 0;
     w.packed(1);
     w.packed(3);
     // ---- type table
@@ -419,6 +420,9 @@ fn prop_skeleton(c: &SkelCase, ctx: &Ctx) -> PResult {
     }
     ctx.classf(format!("sklb:container-version:{}", c.container_version));
     ctx.class(if c.backrefs { "havok:string-backrefs" } else { "havok:literal-strings" });
+    if c.ids[0] % 2 == 0 && c.backrefs && c.bones.iter().any(|b| b.name.is_empty()) {
+        ctx.class("havok:empty-string-as-explicit-literal-with-backrefs");
+    }
     if c.pad_ints > 0 {
         ctx.class("havok:non-minimal-packed-ints");
     }
